@@ -100,6 +100,13 @@ structure World.Same (a b : World) : Prop where
 /-- every glyph's contours are loaded -/
 def World.Loaded (w : World) : Prop := ∀ g ∈ w.conts, g.shallow = false
 
+/-- The operations whose very first action is a read access to the contours of a glyph (which one). -/
+def Op.looksFirst : Op → Option Nat
+  | .insContour t _ _ | .rmContour t _ | .clearContours t | .insPoint t _ _ _ | .addPoint t _ _ | .rmPoint t _ _
+  | .clearContour t _ | .reverse t _ | .rmSegment t _ _ _ | .split t _ _ | .setStart t _ _ | .setContourId t _ _
+  | .genContourId t _ _ | .genPointId t _ _ _ | .clearGlyph t | .reload t _ | .rmAbsentPoint t _ | .load t => some t
+  | _ => none
+
 /-- The single-object operations: everything that introduces one object or one identifier. -/
 def Op.single : Op → Bool
   | .insContour .. | .reinsContour .. | .insPoint .. | .addPoint .. | .setContourId .. | .genContourId ..
